@@ -110,6 +110,51 @@ fn roundtrip(format: &str, class: &str, props: &BTreeMap<String, Variant>) -> Re
     Ok(inst.properties.iter().map(|(k, v)| (k.to_string(), v.clone())).collect())
 }
 
+/// the defaults as the binary WRITER uses them: an instance that sets every default of its class explicitly next to an
+/// instance of the same class that sets nothing.  The second one's column values are filled in by the writer from the
+/// database (`find_default_property`, of the declared or of the serialized type); read back, both instances must hold the
+/// same value for every property (the explicit one came through unchanged, see above).  Returns (property, detail) lines.
+fn companion(class: &str, props: &BTreeMap<String, Variant>) -> Result<Vec<(String, String)>, (String, String)> {
+    let mut a = InstanceBuilder::new(class).with_name("explicit");
+    for (k, v) in props {
+        a = a.with_property(k.as_str(), v.clone());
+    }
+    let b = InstanceBuilder::new(class).with_name("bare");
+    let dom = WeakDom::new(InstanceBuilder::new("DataModel").with_child(a).with_child(b));
+    let roots = dom.root().children().to_vec();
+    let mut buf = Vec::new();
+    match catch_unwind(AssertUnwindSafe(|| rbx_binary::to_writer(&mut buf, &dom, &roots).map_err(|e| e.to_string()))) {
+        Err(p) => return Err(("write-panic".into(), panic_text(p))),
+        Ok(Err(e)) => return Err(("write-error".into(), e)),
+        Ok(Ok(())) => {}
+    }
+    let back = match catch_unwind(AssertUnwindSafe(|| rbx_binary::from_reader(&buf[..]).map_err(|e| e.to_string()))) {
+        Err(p) => return Err(("read-panic".into(), panic_text(p))),
+        Ok(Err(e)) => return Err(("read-error".into(), e)),
+        Ok(Ok(d)) => d,
+    };
+    let kids = back.root().children();
+    if kids.len() != 2 {
+        return Err(("read-shape".into(), format!("{} top-level instances read back", kids.len())));
+    }
+    let (x, y) = (back.get_by_ref(kids[0]).unwrap(), back.get_by_ref(kids[1]).unwrap());
+    let mut out = Vec::new();
+    let mut keys: Vec<_> = x.properties.keys().map(|k| k.to_string()).collect();
+    keys.sort();
+    for k in keys {
+        if k == "UniqueId" {
+            continue; // regenerated per instance
+        }
+        let xv = coq_value(&x.properties[&rbx_dom_weak::ustr(&k)]);
+        match y.properties.get(&rbx_dom_weak::ustr(&k)) {
+            None => out.push((k.clone(), "the instance that sets nothing lacks the property after the round trip".to_string())),
+            Some(v) if coq_value(v) != xv => out.push((k.clone(), format!("the writer filled in {} for the instance that sets nothing; the database default reads back as {}", short(&coq_value(v)), short(&xv)))),
+            _ => {}
+        }
+    }
+    Ok(out)
+}
+
 /// the bundled database written the way rbx_reflector writes `database.msgpack` (rmp_serde, positional) must load again and
 /// describe the same classes, superclass links, descriptors and defaults: the Serialize and Deserialize sides of
 /// rbx_reflection's descriptor types agree (the bundled file is the output of exactly this writer)
@@ -321,7 +366,7 @@ pub fn cli(args: &[String]) -> bool {
     let db = rbx_reflection_database::get();
     let mut obs = std::io::BufWriter::new(std::fs::File::create(&args[2]).unwrap());
     let mut orc = std::io::BufWriter::new(std::fs::File::create(&args[3]).unwrap());
-    let (mut nclasses, mut nprops, mut nskipped, mut nfail_classes) = (0u64, 0u64, 0u64, 0u64);
+    let (mut nclasses, mut nprops, mut nskipped, mut nfail_classes, mut ncompanion) = (0u64, 0u64, 0u64, 0u64, 0u64);
     let mut by_type: BTreeMap<String, u64> = BTreeMap::new();
     for c in sorted_classes(db) {
         if let Some(o) = &only {
@@ -392,6 +437,17 @@ pub fn cli(args: &[String]) -> bool {
                 }
             }
         }
+        if !props.is_empty() {
+            ncompanion += 1;
+            match companion(class, &props) {
+                Err((stage, text)) => writeln!(orc, "{class} C16 bin default-fill-{stage} *: {}", short(&text)).unwrap(),
+                Ok(lines) => {
+                    for (p, detail) in lines {
+                        writeln!(orc, "{class} C16 bin default-fill {p}: {detail}").unwrap();
+                    }
+                }
+            }
+        }
         if status.iter().any(|s| *s == "FAIL") {
             nfail_classes += 1;
         }
@@ -407,8 +463,8 @@ pub fn cli(args: &[String]) -> bool {
     let mut st = std::fs::File::create(&args[4]).unwrap();
     writeln!(
         st,
-        "{{\"classes\": {}, \"default_properties_written\": {}, \"defaults_not_serializable_skipped\": {}, \"classes_not_unchanged\": {}, \"name_probe_properties\": {}, \"name_probe_skipped_no_sample_value\": {}, \"by_type\": {{{}}}}}",
-        nclasses, nprops, nskipped, nfail_classes, nprobed, nprobe_skipped, types.join(", ")
+        "{{\"classes\": {}, \"companion_files\": {}, \"default_properties_written\": {}, \"defaults_not_serializable_skipped\": {}, \"classes_not_unchanged\": {}, \"name_probe_properties\": {}, \"name_probe_skipped_no_sample_value\": {}, \"by_type\": {{{}}}}}",
+        nclasses, ncompanion, nprops, nskipped, nfail_classes, nprobed, nprobe_skipped, types.join(", ")
     )
     .unwrap();
     true
